@@ -235,7 +235,7 @@ func init() {
 			}},
 			{Name: "random", Quick: 400, Thorough: 6000, Run: func(t *fw.T) {
 				r := t.Rand()
-				g := gen.NewSyn(r, gen.SynOpts{ExprDepth: 2 + r.IntN(3), StmtDepth: 1 + r.IntN(3), MaxStmts: 1 + r.IntN(4)})
+				g := gen.NewSyn(r, gen.SynOpts{ExprDepth: 2 + r.IntN(3), StmtDepth: 1 + r.IntN(3), MaxStmts: 1 + r.IntN(4), EscStr: true})
 				prog := g.Program()
 				runC12(t, prog, c12Layouts[r.IntN(len(c12Layouts))])
 				t.Distinct(prog.S())
